@@ -56,7 +56,7 @@ Logged ==
             \/ DialCloseLate(ConnOf(Ev.x))
     \/ IsEvent("Kill") /\ Known(Ev.x) /\ Kill(ConnOf(Ev.x), Ev.k)
     \/ IsEvent("TClose") /\ TCloseStart
-    \/ IsEvent("TCloseRet") /\ TCloseEnd
+    \/ IsEvent("TCloseRet") /\ TCloseObs
     \/ IsEvent("Return") /\ pc[Ev.c] = "done" /\ UNCHANGED vars
          /\ \/ Ev.res = "ok" /\ res[Ev.c] = "ok"
             \/ Ev.res = "ctx" /\ res[Ev.c] # "ok" /\ ctxDone[Ev.c]
@@ -68,7 +68,7 @@ Silent ==
     /\ UNCHANGED l
     /\ \/ \E c \in Calls : GetRX(c) \/ EarlyWake(c) \/ EarlyCtx(c) \/ Retry(c) \/ Fail(c)
        \/ \E x \in ConnIds : (lz[x] # "dialed" \/ health[x] = "dead") /\ TCloseOne(x)
-       \/ TCloseLock
+       \/ TCloseLock \/ TCloseEnd
 
 TraceNext == (Reset \/ Logged \/ Silent) /\ LazyInv'
 
